@@ -117,11 +117,15 @@ def run(ctx):
         data, conf = arr(case)
         F, P, N, D = data.shape
         axis = rng.choice([[0, 1], [0, 1, 2]])
+        usc = 2.0 ** -17 if rng.random() < 0.25 else 1.0          # a quarter of the poses in small units (image-relative coordinates of a hardly moving point): deviations ≈ 1e-5
+        if usc != 1.0:
+            data = data * usc; case = with_data(case, data)
+        ctx.count("distribution units:%g" % usc)
         x = ma.array(data, mask=np.repeat((conf == 0)[..., None], D, axis=3))
         with np.errstate(all="ignore"):
             sd = x.std(axis=tuple(axis))
         sdv, sdm = np.asarray(ma.getdata(sd)), np.asarray(ma.getmaskarray(sd))
-        if sdm.all() or (np.abs(sdv[~sdm]) < 1e-3).any():
+        if sdm.all() or (np.abs(sdv[~sdm]) < 1e-3 * usc).any():
             continue                                                   # precondition: non-zero deviation
         be = rng.choice(["numpy", "numpy", "tf"])
         back = rng.random() < 0.4
@@ -228,7 +232,7 @@ def check_distribution(ctx, bad, info, case, r, axis, back):
     if not np.array_equal(m, miss0) or not np.array_equal(c, conf):
         bad("normalize_distribution changes the missing pattern or the confidences", info, {"extra_masked": int((m & ~miss0).sum())}); return
     if back:
-        if not np.allclose(d, np.where(miss0, 0, data), rtol=TOL * 5, atol=TOL * 20):
+        if not np.allclose(d, np.where(miss0, 0, data), rtol=TOL * 5, atol=TOL * 20 * max(1e-30, float(np.abs(data).max()) / 16)):
             bad("unnormalize_distribution with the returned statistics does not restore the original", info, {"max_abs": float(np.abs(d - np.where(miss0, 0, data)).max())})
         return
     x = ma.array(d, mask=m)
